@@ -48,10 +48,35 @@ pub fn character_string_value(input: Input<'_>) -> ParserResult<'_, ASN1Value> {
 pub fn cstring(input: Input<'_>) -> ParserResult<'_, String> {
     map(raw_string_literal, |s| {
         // Replace any escaped quote with a single `"`
-        // TODO: Remove whitespace around newlines in multiline strings.
-        s.replace("\"\"", "\"")
+        join_lines(&s.replace("\"\"", "\""))
     })
     .parse(input)
+}
+
+/// Removes every end of line inside a "cstring" together with the spacing characters
+/// immediately prior to or following it (ITU-T X.680 12.14.1). A string written on one
+/// line is returned as it is.
+fn join_lines(s: &str) -> String {
+    let spacing = |c: char| matches!(c, ' ' | '\t' | '\u{a0}');
+    let newline = |c: char| matches!(c, '\n' | '\r' | '\u{b}' | '\u{c}');
+    let mut pieces = s.split(newline).peekable();
+    let mut joined = String::with_capacity(s.len());
+    let mut first = true;
+    while let Some(piece) = pieces.next() {
+        let piece = if first {
+            piece
+        } else {
+            piece.trim_start_matches(spacing)
+        };
+        let piece = if pieces.peek().is_none() {
+            piece
+        } else {
+            piece.trim_end_matches(spacing)
+        };
+        joined.push_str(piece);
+        first = false;
+    }
+    joined
 }
 
 /// Parses a string literal into its raw value.
